@@ -3,7 +3,8 @@
 #
 # Runs the *committed* checks against a seeded change without touching /repo or /verif, so that development can go on
 # in both while seeds are being tried:
-#   /tmp/repo-snap   scratch git worktree of /repo's HEAD; the patch is applied there and reverted afterwards
+#   /tmp/repo-snap   scratch git worktree of /repo's HEAD (or of the commit named in <dir>/base_commit); the patch is
+#                    applied there and reverted afterwards
 #   /tmp/verif-snap  scratch git worktree of /verif's HEAD with its own target directory (kept between runs)
 # Inside a private mount namespace (unshare -m) the two are bind-mounted over /repo and /verif, so every check runs
 # exactly as registered in MANIFEST.json (same paths, same commands); nothing outside the namespace sees the patch.
@@ -15,7 +16,9 @@ exec 8>/tmp/seedrun.lock; flock 8
 [ -d /tmp/repo-snap ] || git -C /repo worktree add --detach /tmp/repo-snap HEAD >/dev/null 2>&1
 [ -d /tmp/verif-snap ] || git -C /verif worktree add --detach /tmp/verif-snap HEAD >/dev/null 2>&1
 git -C /tmp/repo-snap checkout -q -- . && git -C /tmp/repo-snap clean -fdq -- lang cli editor lib docs 2>/dev/null
-git -C /tmp/repo-snap checkout -q --detach "$(git -C /repo rev-parse HEAD)" || { echo "cannot update /tmp/repo-snap"; exit 2; }
+# a seed made for an older commit whose lines a later repair rewrote names that commit in <dir>/base_commit
+base="$(cat "$(dirname "$patch")/base_commit" 2>/dev/null || git -C /repo rev-parse HEAD)"
+git -C /tmp/repo-snap checkout -q --detach "$base" || { echo "cannot update /tmp/repo-snap"; exit 2; }
 git -C /tmp/verif-snap checkout -q -- . 2>/dev/null
 git -C /tmp/verif-snap checkout -q --detach "$(git -C /verif rev-parse HEAD)" || { echo "cannot update /tmp/verif-snap"; exit 2; }
 name="$(basename "$(dirname "$patch")")"
